@@ -54,6 +54,50 @@ def parse_errors(stderr: str, path: str):
     return recs
 
 
+def _canaries_in_resource_spans(ctext, cerrs):
+    """indices of canary assertions that lie inside the body of a loop (or function) for which Verus reported
+    'Resource limit (rlimit) exceeded' in the canary run"""
+    from .rustlex import mask, match_close
+    res = set()
+    rl = [e for e in cerrs if e.get('kind') == 'resource' and e['lines']]
+    if not rl:
+        return res
+    m = mask(ctext)
+    lines = ctext.split('\n')
+    starts = [0]
+    for ln in lines:
+        starts.append(starts[-1] + len(ln) + 1)
+    spans = []
+    for e in rl:
+        ln = e['lines'][0]
+        if not (1 <= ln <= len(lines)):
+            continue
+        # body brace: first line at or after the header that consists of "{" only (layout produced by render_fn for
+        # loops / functions with a spec), else the first "{" on the header line
+        k = ln - 1
+        pos = None
+        if '{' in m[starts[k]:starts[k + 1]] and not lines[k].strip().startswith(('pub fn', 'fn')) and 'invariant' not in lines[k]:
+            # loop without a spec block: "while cond {"
+            rel = m[starts[k]:starts[k + 1]].rfind('{')
+            pos = starts[k] + rel
+        else:
+            j = k
+            while j < len(lines) and lines[j].strip() != '{':
+                j += 1
+            if j < len(lines):
+                pos = starts[j] + lines[j].index('{')
+        if pos is None:
+            continue
+        try:
+            spans.append((pos, match_close(m, pos)))
+        except Exception:
+            continue
+    for mt in re.finditer(r'/\*CANARY (\d+)\*/', ctext):
+        if any(a <= mt.start() <= b for a, b in spans):
+            res.add(int(mt.group(1)))
+    return res
+
+
 def clause_at(lines, ln):
     if 1 <= ln <= len(lines):
         return lines[ln - 1].strip()
@@ -197,7 +241,7 @@ def run_unit(unit, repo, verif, tier='quick', canary=True, workdir=None):
         marks = cinfo.get('canaries', [])
         cpath = os.path.join(bdir, unit + '_canary.rs')
         open(cpath, 'w').write(ctext)
-        rc = run_verus(cpath, rlimit=rl)
+        rc = run_verus(cpath, rlimit=min(rl, 10))
         cerrs = parse_errors(rc['stderr'], cpath)
         clines = ctext.split('\n')
         failed = set()
@@ -206,6 +250,10 @@ def run_unit(unit, repo, verif, tier='quick', canary=True, workdir=None):
                 mm = re.search(r'/\*CANARY (\d+)\*/', clause_at(clines, e['lines'][0]))
                 if mm:
                     failed.add(int(mm.group(1)))
+        # a canary inside a loop / function whose query ran out of resources was not proved either: "false" was not derivable
+        # within the budget, which is all the guard needs (a contradictory context proves assert(false) at once)
+        unproven = _canaries_in_resource_spans(ctext, cerrs)
+        failed |= unproven
         bad = [marks[i] for i in range(len(marks)) if i not in failed]
         res['canaries'] = {'inserted': len(marks), 'failed_as_expected': len(failed), 'wall': rc['wall']}
         if bad or not marks:
